@@ -202,7 +202,7 @@ func checkC18(ctx *Ctx, r *Report, tier string) {
 			continue
 		}
 		ev := newEval(ctx, "Panicf")
-		ev.evalRoot(fn)
+		_, final := ev.evalRoot(fn)
 		ok := false
 		detail := "no map update"
 		for _, e := range eventsOf(ev, "mapupdate") {
@@ -213,6 +213,11 @@ func checkC18(ctx *Ctx, r *Report, tier string) {
 			var obj Val
 			if pp, isP := e.Args[2].(*Ptr); isP && pp.Obj != nil {
 				obj = e.State.mem[pp.Obj]
+				// the row as the function leaves it (an Add helper may finish a row that
+				// another one has entered)
+				if fo, has := final.mem[pp.Obj]; has {
+					obj = fo
+				}
 			}
 			m := map[string]*Term{}
 			leafTerms("", obj, m)
@@ -490,6 +495,10 @@ func evalFloat(v Val, env map[string]float64) (float64, bool) {
 				return math.Mod(x, y), true
 			case "math.Atan2":
 				return math.Atan2(x, y), true
+			case "math.Hypot":
+				return math.Hypot(x, y), true
+			case "math.Pow":
+				return math.Pow(x, y), true
 			case "intdiv":
 				if y != 0 {
 					return math.Trunc(x / y), true
@@ -515,6 +524,22 @@ func evalFloat(v Val, env map[string]float64) (float64, bool) {
 				return math.Abs(x), true
 			case "math.Atan":
 				return math.Atan(x), true
+			case "math.Floor":
+				return math.Floor(x), true
+			case "math.Ceil":
+				return math.Ceil(x), true
+			case "math.Trunc":
+				return math.Trunc(x), true
+			case "math.Round":
+				return math.Round(x), true
+			case "math.Exp":
+				return math.Exp(x), true
+			case "math.Log":
+				return math.Log(x), true
+			case "math.Acos":
+				return math.Acos(x), true
+			case "math.Asin":
+				return math.Asin(x), true
 			}
 		}
 	}
@@ -669,6 +694,32 @@ func checkRowsReadOnly(ctx *Ctx, r *Report) {
 				return
 			}
 			_, fresh := fa.X.(*ssa.Alloc)
+			// the methods of the database type itself build the rows (they run from the package
+			// initialiser, before any row can have been handed out)
+			if recv := fn.Signature.Recv(); recv != nil && !fresh {
+				if mp, ok := recv.Type().Underlying().(*types.Map); ok {
+					if el, ok := derefType(mp.Elem()).(*types.Named); ok && el.Obj().Name() == "ThreadParameters" {
+						fresh = true
+					}
+				}
+			}
+			if c, ok := fa.X.(*ssa.Call); ok && !fresh {
+				// a helper of the module that returns nothing but records it allocates itself
+				if g := c.Call.StaticCallee(); g != nil && inModule(g) && len(g.Blocks) > 0 {
+					fresh = true
+					for _, b := range g.Blocks {
+						if ret, ok := b.Instrs[len(b.Instrs)-1].(*ssa.Return); ok {
+							for _, rv := range ret.Results {
+								if _, isPtr := rv.Type().Underlying().(*types.Pointer); isPtr {
+									if _, isAlloc := rv.(*ssa.Alloc); !isAlloc {
+										fresh = false
+									}
+								}
+							}
+						}
+					}
+				}
+			}
 			k++
 			n++
 			stt := nt.Underlying().(*types.Struct)
